@@ -25,6 +25,8 @@ func checkC01(c *Ctx, r *Report) {
 	checkQRHeader(c, r)
 	checkQRCounts(c, r)
 	checkQRChooseMode(c, r)
+	checkDecodePipelines(c, r)
+	checkGuessUTF8(c, r) // default byte mode writes UTF-8 without an ECI: the reader has to guess it (same obligation as under C15)
 	// the statement quantifies over the requested pixel size: the rendering terms (same obligations as under C14)
 	declareRenderRules(r, 1)
 	renderQR(c, r)
@@ -138,13 +140,44 @@ func firstFor(fd *ast.FuncDecl) *ast.ForStmt {
 	return out
 }
 
-// localByName finds a local variable / parameter of fd by name (first definition).
-func localByName(p *packages.Package, fd *ast.FuncDecl, name string) types.Object {
+// loopCondIdents returns the objects of the two identifiers of a loop condition `x < y` (or `x <= y`).
+func loopCondIdents(p *packages.Package, l *ast.ForStmt) (types.Object, types.Object) {
+	if l == nil {
+		return nil, nil
+	}
+	be, ok := ast.Unparen(l.Cond).(*ast.BinaryExpr)
+	if !ok || (be.Op != token.LSS && be.Op != token.LEQ) {
+		return nil, nil
+	}
+	return identObj(p, be.X), identObj(p, be.Y)
+}
+
+// steppedBy finds the variable that `v += k` advances inside body.
+func steppedBy(p *packages.Package, body ast.Node, k int64) types.Object {
 	var out types.Object
-	ast.Inspect(fd, func(n ast.Node) bool {
-		if id, ok := n.(*ast.Ident); ok && id.Name == name && out == nil {
-			if o := p.TypesInfo.Defs[id]; o != nil {
-				out = o
+	ast.Inspect(body, func(n ast.Node) bool {
+		if as, ok := n.(*ast.AssignStmt); ok && as.Tok == token.ADD_ASSIGN && len(as.Lhs) == 1 && len(as.Rhs) == 1 && out == nil {
+			if v, isK := constInt(p, as.Rhs[0]); isK && v == k {
+				out = identObj(p, as.Lhs[0])
+			}
+		}
+		return out == nil
+	})
+	return out
+}
+
+// firstResultOfCall finds the variable that receives the first result of the first call accepted by pred in fd.
+func firstResultOfCall(p *packages.Package, fd *ast.FuncDecl, pred func(types.Object) bool) types.Object {
+	var out types.Object
+	ast.Inspect(fd.Body, func(n ast.Node) bool {
+		if as, ok := n.(*ast.AssignStmt); ok && len(as.Rhs) == 1 && out == nil {
+			if call, isC := ast.Unparen(as.Rhs[0]).(*ast.CallExpr); isC && pred(typeutil.Callee(p.TypesInfo, call)) {
+				if id, isI := as.Lhs[0].(*ast.Ident); isI {
+					out = p.TypesInfo.Defs[id]
+					if out == nil {
+						out = p.TypesInfo.Uses[id]
+					}
+				}
 			}
 		}
 		return out == nil
@@ -274,7 +307,7 @@ func checkQRSegments(c *Ctx, r *Report) {
 			return
 		}
 		eps, dps := paramObjs(ep, efd), paramObjs(dp, dfd)
-		iObj, lenObj := localByName(ep, efd, "i"), localByName(ep, efd, "length")
+		iObj, lenObj := loopCondIdents(ep, eloop) // for i < length
 		if iObj == nil || lenObj == nil {
 			r.Undecided("S-SEG", key, c.pos(efd.Pos()), "encoder cursor variables not found")
 			return
@@ -357,7 +390,7 @@ func checkQRSegments(c *Ctx, r *Report) {
 		r.Analysed(key)
 		eloop, dloop := firstFor(efd), firstFor(dfd)
 		eps, dps := paramObjs(ep, efd), paramObjs(dp, dfd)
-		iObj, lenObj := localByName(ep, efd, "i"), localByName(ep, efd, "length")
+		iObj, lenObj := loopCondIdents(ep, eloop) // for i < length
 		if eloop == nil || dloop == nil || iObj == nil || lenObj == nil {
 			r.Undecided("S-SEG", key, c.pos(efd.Pos()), "group loops / cursor variables not found")
 			return
@@ -436,8 +469,17 @@ func checkQRSegments(c *Ctx, r *Report) {
 		}
 		r.Analysed(key)
 		eloop, dloop := firstFor(efd), firstFor(dfd)
-		bytesObj, iObj := localByName(ep, efd, "bytes"), localByName(ep, efd, "i")
-		offObj := localByName(dp, dfd, "offset")
+		// the Shift_JIS bytes (first result of the encoder's Bytes call), the encoder's cursor and the decoder's
+		// output position (advanced by two per character)
+		bytesObj := firstResultOfCall(ep, efd, func(o types.Object) bool {
+			fn, ok := o.(*types.Func)
+			return ok && fn.Name() == "Bytes" && fn.Pkg() != nil && strings.Contains(fn.Pkg().Path(), "golang.org/x/text")
+		})
+		iObj, _ := loopCondIdents(ep, eloop)
+		var offObj types.Object
+		if dloop != nil {
+			offObj = steppedBy(dp, dloop.Body, 2)
+		}
 		dps := paramObjs(dp, dfd)
 		if eloop == nil || dloop == nil || bytesObj == nil || iObj == nil || offObj == nil {
 			r.Undecided("S-SEG", key, c.pos(efd.Pos()), "group loops / variables not found")
@@ -520,7 +562,10 @@ func checkQRHeader(c *Ctx, r *Report) {
 		r.Analysed(key)
 		ps := paramObjs(p, fd)
 		s := c.newSymExec(p)
-		s.pure = func(o types.Object) bool { fn, ok := o.(*types.Func); return ok && fn.Name() == "GetCharacterCountBits" }
+		s.pure = func(o types.Object) bool {
+			fn, ok := o.(*types.Func)
+			return ok && fn.Name() == "GetCharacterCountBits"
+		}
 		s.block(fd.Body.List)
 		bad := "the count must be appended with the width mode.GetCharacterCountBits(version)"
 		for _, cl := range s.calls {
@@ -531,10 +576,7 @@ func checkQRHeader(c *Ctx, r *Report) {
 					bad = "a count that does not fit the field must be rejected before it is written (numLetters >= 1 << width)"
 					for _, cd := range cl.Conds {
 						// reached under !(n >= 1<<w)
-						if cd.neg && cd.op == token.GEQ && cd.l.equal(polyAtom(objAtom(ps[0]))) {
-							bad = ""
-						}
-						if !cd.neg && cd.op == token.LSS && cd.l.equal(polyAtom(objAtom(ps[0]))) {
+						if l, _, strict, ok := cd.lessForm(); ok && strict && l.equal(polyAtom(objAtom(ps[0]))) {
 							bad = ""
 						}
 					}
@@ -787,7 +829,7 @@ func checkQRCounts(c *Ctx, r *Report) {
 		okGuard, okRead := false, false
 		for _, rt := range s.rets {
 			for _, cd := range rt.Conds {
-				if cd.op == token.GTR && !cd.neg && cd.l.equal(cnt.mul(polyInt(t.width))) && strings.Contains(cd.r.String(), "Available") {
+				if l, rr, strict, ok := cd.lessForm(); ok && strict && rr.equal(cnt.mul(polyInt(t.width))) && strings.Contains(l.String(), "Available") {
 					okGuard = true
 				}
 			}
@@ -796,13 +838,15 @@ func checkQRCounts(c *Ctx, r *Report) {
 			if isMethodNamed(cl.Callee, "common", "BitSource", "ReadBits") && len(cl.Args) == 1 && cl.Args[0].equal(polyInt(t.width)) {
 				// inside a loop that runs count times: for i < count, or for count > 0 with count--
 				for _, cd := range cl.Conds {
-					if cd.op == token.LSS && !cd.neg && cd.r.equal(cnt) && len(kAtomsOf(cd.l)) == 1 {
+					l, rr, strict, ok := cd.lessForm()
+					if !ok || !strict {
+						continue
+					}
+					if rr.equal(cnt) && len(kAtomsOf(l)) == 1 {
 						okRead = true
 					}
-					if cd.op == token.GTR && !cd.neg {
-						if rc, isC := cd.r.isConst(); isC && rc.Sign() == 0 && strings.Contains(cd.l.String(), countObj.Name()) {
-							okRead = true
-						}
+					if lc, isC := l.isConst(); isC && lc.Sign() == 0 && strings.Contains(rr.String(), countObj.Name()) {
+						okRead = true
 					}
 				}
 			}
@@ -810,8 +854,8 @@ func checkQRCounts(c *Ctx, r *Report) {
 		// `for count > 0 { ...; count-- }`
 		if !okRead {
 			if l := firstFor(fd); l != nil && l.Init == nil && l.Post == nil {
-				if be, isB := ast.Unparen(l.Cond).(*ast.BinaryExpr); isB && be.Op == token.GTR && identObj(p, be.X) == countObj {
-					if z, isK := constInt(p, be.Y); isK && z == 0 {
+				if be, isB := ast.Unparen(l.Cond).(*ast.BinaryExpr); isB && be.Op == token.LSS && identObj(p, be.Y) == countObj { // 0 < count (comparisons are canonicalised at load time)
+					if z, isK := constInt(p, be.X); isK && z == 0 {
 						dec := 0
 						for _, st := range l.Body.List {
 							if inc, isInc := st.(*ast.IncDecStmt); isInc && inc.Tok == token.DEC && identObj(p, inc.X) == countObj {
